@@ -15,7 +15,7 @@ as a domain. Does NOT decide parse(display(parse(s))) == parse(s) for all string
 import ast
 import re
 from ..sym import Sym, show, walk_expr, PathExplosion
-from ..common import short, strip_casts, emptiness
+from ..common import short, strip_casts, emptiness, strip_view
 from .. import pathq, oblig, callgraph
 from . import tables
 
@@ -359,7 +359,9 @@ def run(ctx, f, rep):
                 if arg6 is not None and pathq.mentions_call(arg6, lambda y: short(y[1]) == "index") is not None:
                     stripped = True
             if "Host::Domain" in txt:
-                okd = len(parses) == 2 and any(isinstance(x, tuple) and x and x[0] == "arg" for x in walk_expr(p.ret))
+                # Ok(Host::Domain(s)): the payload IS the argument string (through clones / borrows), not a piece of it
+                dom = next((x for x in walk_expr(p.ret) if isinstance(x, tuple) and x and x[0] == "agg" and x[3] == "Domain" and x[4]), None)
+                okd = len(parses) == 2 and dom is not None and strip_view(dom[4][0]) == ("arg", 1)
             if "Err" in txt and "Ok" not in txt:
                 emp = any(emptiness(e, c) is not None and emptiness(e, c)[1] is True for (e, c, _, _) in p.conds)
                 rep.check(emp, "R19.3", "R19.3|host-empty-rejected", "the only error of the host parser is the empty host", b.loc())
